@@ -40,8 +40,10 @@ def _sig(path):
 
 
 class Recorder(pl.Callback):
-    def __init__(self, params, crash_at=None, watch=None, record_opt=True, probe=None):
+    def __init__(self, params, crash_at=None, watch=None, record_opt=True, probe=None, reseed=None):
         self.params = params
+        self.reseed = reseed              # reseed the global torch RNG with reseed + <step ordinal> at every batch start
+        self.n_batches = 0
         self.probe = probe                # optional module whose state_dict() is cloned at every boundary
         self.probe_states = []            # [(hook, global_step, {key: tensor})]
         self.crash_at = crash_at
@@ -104,6 +106,9 @@ class Recorder(pl.Callback):
 
     def on_train_batch_start(self, trainer, m, batch, batch_idx):
         self.events.append(("bs", int(batch_idx), int(trainer.global_step)))
+        if self.reseed is not None:
+            torch.manual_seed(int(self.reseed) + self.n_batches)
+        self.n_batches += 1
         self.start_states[int(trainer.global_step)] = self._state()
         self._probe("batch_start", trainer)
         self._check_files("batch_start", trainer)
@@ -198,7 +203,7 @@ class RealRun:
 
 
 def run_real(spec, steps, lib_callbacks=None, ckpt_path=None, crash_at=None, watch=None, world=None,
-             record_opt=True, probe=None, setting=None):
+             record_opt=True, probe=None, setting=None, reseed=None):
     """Build a fresh world, train it `steps` steps through Solver + Trainer.  `lib_callbacks(world)` returns the
     library callbacks to install (before the harness recorder).  Exceptions other than SimulatedCrash propagate."""
     import torchphysics as tp
@@ -217,7 +222,8 @@ def run_real(spec, steps, lib_callbacks=None, ckpt_path=None, crash_at=None, wat
     r.val_only_theta0 = W.clone_state(r.val_only_params)
     r.train_conds = list(w.train)
     r.log_base = [len(getattr(c, "log_calls", ())) for c in w.train]
-    rec = Recorder(r.params, crash_at=crash_at, watch=watch, record_opt=record_opt)
+    rec = Recorder(r.params, crash_at=crash_at, watch=watch, record_opt=record_opt,
+                   reseed=reseed if reseed is not None else W.reseed_base(spec, 0))
     r.rec = rec
     r.trainer = None
     handles = hook_conditions(w, rec.events)
@@ -289,7 +295,7 @@ def run_real_staged(spec):
         else:
             setting = optimizer_setting(pseudo)
         try:
-            r = run_real(pseudo, st["steps"], world=w, setting=setting)
+            r = run_real(pseudo, st["steps"], world=w, setting=setting, reseed=W.reseed_base(spec, si))
         except Exception as e:
             return out, e
         prev_setting = setting if setting != "solver_default" else None
